@@ -216,6 +216,13 @@ def build_case(cid, rng, schema, first_id=None, fillers=0):
             {"op": "pe_get_for_list", "list": "$p1"}]
     plan += [("pe_add", 1, e1), ("pe_get_after_add", 1), ("pe_add", 2, e2), ("pe_get_after_add", 2), ("pe_get_first_after_second",),
              ("pe_list",)]
+    # rows elsewhere that name a track id which is not in the track table (other software leaves such rows; add_back takes any
+    # id): remove() of that id still names a nonexistent row
+    e3 = {"list_id": "$p1", "track_id": 434343, "database_uuid": "$uuid", "next_entity_id": 0, "membership_reference": 0}
+    ops += [{"op": "pe_add_back", "row": e3}, {"op": "trk_remove", "id": 434343}, {"op": "trk_remove", "id": 424242},
+            {"op": "trk_get_col", "id": 434343, "col": "title"}, {"op": "pe_remove", "list": "$p1", "track": 434343}]
+    plan += [("pre",), ("missing_remove", "track-referenced-by-an-entity"), ("missing_remove", "track-referenced-by-a-foreign-entity"),
+             ("missing_getcol", "title"), ("pre",)]
     ops += [{"op": "pe_remove", "list": "$p1", "track": 999999}, {"op": "pe_remove", "list": 999999, "track": "$2"},
             {"op": "pl_remove", "id": 999999}, {"op": "pe_remove", "list": "$p1", "track": "$2"}, {"op": "pe_get_for_list", "list": "$p1"},
             {"op": "pl_remove", "id": "$p2"}, {"op": "pl_get", "id": "$p2"}, {"op": "pl_remove", "id": "$p2"}]
